@@ -231,6 +231,7 @@ func checkC18(p *Program, r *Report) {
 			}
 		}
 		r.Check(okExit, "C18.R1", "main|os.Exit(runner result)", p.Pos(mainFn.Pos()), "the process exit code is the runner's result", "main does not pass the runner's result to os.Exit")
+		c18Dispatch(p, r, mainFn, runner)
 	}
 
 	// R2: arguments of Execute
@@ -711,4 +712,102 @@ func wholeFileRead(v ssa.Value, depth int) string {
 		return callee.Name() + " never returns"
 	}
 	return ""
+}
+
+// c18Dispatch (R3): any other mode main can end in (the interactive prompt) is entered only when there is no positional argument:
+// whenever a script file was named on the command line - whatever its name, the empty string included - the script runner runs
+// and an unreadable file is reported with exit code 2.
+func c18Dispatch(p *Program, r *Report, mainFn, runner *ssa.Function) {
+	// values that reach os.Exit
+	var exitArgs []ssa.Value
+	for _, b := range mainFn.Blocks {
+		for _, in := range b.Instrs {
+			if c, ok := in.(*ssa.Call); ok && isFuncNamed(calleeObj(c), "os", "", "Exit") {
+				exitArgs = append(exitArgs, c.Call.Args[0])
+			}
+		}
+	}
+	var others []*ssa.Call
+	seen := map[ssa.Value]bool{}
+	var walk func(v ssa.Value)
+	walk = func(v ssa.Value) {
+		if seen[v] {
+			return
+		}
+		seen[v] = true
+		switch x := v.(type) {
+		case *ssa.Call:
+			if callee := staticCallee(x); callee != nil && callee != runner && callee.Pkg == mainFn.Pkg {
+				others = append(others, x)
+			}
+		case *ssa.Phi:
+			for _, e := range x.Edges {
+				walk(e)
+			}
+		case *ssa.UnOp:
+			if al, ok := x.X.(*ssa.Alloc); ok {
+				for _, ref := range *al.Referrers() {
+					if st, ok := ref.(*ssa.Store); ok {
+						walk(st.Val)
+					}
+				}
+			}
+		}
+	}
+	for _, a := range exitArgs {
+		walk(a)
+	}
+	// noArgs: the successor index of an If on which "no positional argument" is known, -1 when the test is not about them
+	noArgs := func(iff *ssa.If) int {
+		bo, ok := iff.Cond.(*ssa.BinOp)
+		if !ok {
+			return -1
+		}
+		k, ok := bo.Y.(*ssa.Const)
+		if !ok || k.Value == nil {
+			return -1
+		}
+		count := false
+		if c, ok := bo.X.(*ssa.Call); ok {
+			if isFuncNamed(calleeObj(c), "flag", "", "NArg") {
+				count = true
+			}
+			if b, ok := c.Call.Value.(*ssa.Builtin); ok && b.Name() == "len" {
+				if c2, ok := c.Call.Args[0].(*ssa.Call); ok && isFuncNamed(calleeObj(c2), "flag", "", "Args") {
+					count = true
+				}
+			}
+		}
+		if !count {
+			return -1
+		}
+		n := k.Int64()
+		switch {
+		case bo.Op == token.GTR && n == 0, bo.Op == token.GEQ && n == 1, bo.Op == token.NEQ && n == 0:
+			return 1
+		case bo.Op == token.EQL && n == 0, bo.Op == token.LSS && n == 1, bo.Op == token.LEQ && n == 0:
+			return 0
+		}
+		return -1
+	}
+	for i, c := range others {
+		ok := false
+		for d := c.Block(); d != nil && d.Idom() != nil; d = d.Idom() {
+			id := d.Idom()
+			if iff, isIf := id.Instrs[len(id.Instrs)-1].(*ssa.If); isIf {
+				if s := noArgs(iff); s >= 0 && edgeOnly(id, s, d) {
+					ok = true
+				}
+			}
+		}
+		name := "?"
+		if callee := staticCallee(c); callee != nil {
+			name = callee.Name()
+		}
+		r.Check(ok, "C18.R3", fmt.Sprintf("main|%s #%d only without positional arguments", name, i+1), p.Pos(c.Pos()), "entered only on the side of a test of the positional-argument count where it is zero",
+			"the command can enter "+name+" although a positional argument (a script file name) was given: the decision is not taken on the number of arguments, so some file name (the empty string, for one) is not run as a script and not reported as unreadable with exit code 2")
+	}
+	if len(others) == 0 {
+		r.OK("C18.R3", "main|single mode", p.Pos(mainFn.Pos()), "main ends in the script runner only")
+	}
 }
